@@ -150,7 +150,7 @@ def deviation_kernel(prog, name):
                     raise Unrecognised("the fold result is not what the routine returns")
                 K = Kernel(prog, root, lambda e: None)
                 return dict(root=root, closure=cb, producers_ok=ds(prods[0])[:2] == ("param", 1) and ds(prods[1])[:2] == ("param", 2),
-                            update=upd, init=K.term(args[1]), bb=bb, upvar=None, ups=ups)
+                            update=upd, init=K.term(args[1]), bb=bb, upvar=None, ups=ups, returned=(True, "the fold's result is returned as is"))
         raise Unrecognised("no Zip::from(self).and(other).for_each(..) in %s" % name)
     bb, prods, cb, ups = zf
     if len(prods) != 2:
@@ -165,7 +165,58 @@ def deviation_kernel(prog, name):
     K = Kernel(prog, root, lambda e: None)
     init = K.term(init_e)
     # the value returned: Ok(accumulator variable)
-    return dict(root=root, closure=cb, producers_ok=p_ok, update=upd, init=init, bb=bb, upvar=u, ups=ups)
+    return dict(root=root, closure=cb, producers_ok=p_ok, update=upd, init=init, bb=bb, upvar=u, ups=ups,
+                returned=returns_captured_accumulator(prog.tracked(root), cb.key, u))
+
+
+def returns_captured_accumulator(root, cb_key, u):
+    """(ok, detail): every Ok(..) payload of `root` is a plain read of the local whose `&mut` is captured as upvar `u` of the
+    closure `cb_key`, and no other definition of that local lies between the capture and the read (the value handed back is the
+    accumulator exactly as the traversal left it: no scaling, doubling, off-by-one after the loop)"""
+    cap = None
+    for bb, si, s_ in root.assigns():
+        rv = s_["rv"]
+        if rv["k"] == "agg" and rv.get("closure") == cb_key and u < len(rv["fields"]):
+            op = rv["fields"][u]
+            if op["k"] in ("move", "copy") and not op["pl"]["p"]:
+                ds_ = root.defs_of(op["pl"]["l"])
+                if len(ds_) == 1 and ds_[0][0] != "entry" and ds_[0][1] != "term":
+                    st = root.blocks[ds_[0][0]]["stmts"][ds_[0][1]]
+                    if st["rv"]["k"] == "ref" and st["rv"].get("mut") and not st["rv"]["pl"]["p"]:
+                        cap = (st["rv"]["pl"]["l"], ds_[0][0], ds_[0][1])
+    if cap is None:
+        return False, "the accumulator captured by the traversal closure was not found"
+    X, cbb, csi = cap
+    at_capture = sorted(map(str, root.reaching_defs(X, cbb, csi)))
+    svs = success_values(root)
+    if not svs:
+        return False, "no success value"
+    for d, _v in svs:
+        if d[0] == "entry" or d[1] == "term":
+            return False, "the success value is a call result, not the accumulator"
+        st = root.blocks[d[0]]["stmts"][d[1]]
+        rv = st["rv"]
+        if not (rv["k"] == "agg" and rv.get("variant") == "Ok" and len(rv["fields"]) == 1):
+            return False, "the success value is not Ok(accumulator)"
+        op, pbb, psi = rv["fields"][0], d[0], d[1]
+        for _ in range(6):
+            if op["k"] not in ("move", "copy") or op["pl"]["p"]:
+                return False, "Ok(..) holds a computed value, not the accumulator"
+            L = op["pl"]["l"]
+            if L == X:
+                break
+            rd = list(root.reaching_defs(L, pbb, psi))
+            if len(rd) != 1 or rd[0][0] == "entry" or rd[0][1] == "term" or not isinstance(rd[0][1], int):
+                return False, "Ok(..) holds `%s`, not the accumulator" % fmt(ds(_v))[:80]
+            st2 = root.blocks[rd[0][0]]["stmts"][rd[0][1]]
+            if st2["rv"]["k"] != "use":
+                return False, "Ok(..) holds `%s`, not the accumulator itself" % fmt(ds(_v))[:80]
+            op, pbb, psi = st2["rv"]["a"], rd[0][0], rd[0][1]
+        else:
+            return False, "copy chain too long"
+        if sorted(map(str, root.reaching_defs(X, pbb, psi))) != at_capture:
+            return False, "the accumulator is assigned again between the traversal and the return"
+    return True, "Ok(accumulator) – read back unchanged after the traversal"
 
 
 def inc_of(update):
@@ -196,6 +247,7 @@ def rule_c09_terms(ctx, prog, rule="R19"):
         ctx.ob(rule, "%s/producers" % name, k["producers_ok"], w, "Zip::from(self).and(other)" if k["producers_ok"] else
                "the two Zip producers are not (self, other)", what="operands not paired as (self, other)")
         ctx.ob(rule, "%s/init" % name, k["init"] == ("num", 0), w, "accumulator starts at zero()", what="accumulator does not start at 0")
+        ctx.ob(rule, "%s/returns-accumulator" % name, k["returned"][0], w, k["returned"][1], what="the distance returned is not the accumulated sum")
         inc = inc_of(k["update"])
         if inc is None:
             ctx.ob(rule, "%s/accumulates" % name, False, w, "update is `%s`, not ACC + term" % show(k["update"]), what="not a plain sum")
@@ -216,6 +268,7 @@ def rule_c09_terms(ctx, prog, rule="R19"):
         ctx.ob(rule, "linf_dist/running-max", ok_shape and upd[1][1] in (">", ">=") and upd[1][3] == ("sym", "ACC") and upd[1][2] == upd[2],
                w, "max ← |a−b| iff |a−b| > max, else unchanged" if ok_shape else "update is `%s`" % show(upd), what="not a running maximum")
         ctx.ob(rule, "linf_dist/init", k["init"] == ("num", 0), w, "starts at zero()", what="maximum does not start at 0")
+        ctx.ob(rule, "linf_dist/returns-accumulator", k["returned"][0], w, k["returned"][1], what="the distance returned is not the running maximum")
         ctx.ob(rule, "linf_dist/producers", k["producers_ok"], w, "Zip::from(self).and(other)", what="operands not paired as (self, other)")
         if ok_shape:
             cand = subst_t(upd[2], real)
@@ -234,6 +287,7 @@ def rule_c09_terms(ctx, prog, rule="R19"):
         ctx.ob(rule, "count_eq/increment", ok, w, "count += 1 exactly when a == b" if ok else "update is `%s`" % show(upd),
                what="count_eq does not count equal positions")
         ctx.ob(rule, "count_eq/init", k["init"] == ("num", 0), w, "starts at 0", what="count does not start at 0")
+        ctx.ob(rule, "count_eq/returns-accumulator", k["returned"][0], w, k["returned"][1], what="the count returned is not the counter")
         ctx.ob(rule, "count_eq/producers", k["producers_ok"], w, "Zip::from(self).and(other)", what="operands not paired as (self, other)")
     except Unrecognised as ex:
         # alternative idiom: iter().zip().filter(eq).count()
@@ -567,7 +621,7 @@ def reduction_in(prog, body, value_expr=None):
             syms.update(fields)
             ret, upd = closure_terms(prog, cb, syms)
             K = Kernel(prog, tb, _leaf_for(prog, tb, {}))
-            return dict(init=K.term(args[1]), step=ret, producers=prods, idiom="fold", site=bb, body=tb)
+            return dict(init=K.term(args[1]), step=ret, producers=prods, idiom="fold", site=bb, body=tb, result=ds(tb.call_expr(bb)))
     # idiom 2: a for loop with one carried accumulator
     lp = T.Loop(tb)
     it = lp.iterator()
@@ -590,7 +644,22 @@ def reduction_in(prog, body, value_expr=None):
             return isyms[e]
         return _leaf_for(prog, tb, {})(e)
     K = Kernel(prog, tb, leaf)
-    return dict(init=K.term(lp.init_expr(acc)), step=K.term(lp.step_expr(acc)), producers=prods, idiom="for", body=tb, acc=acc)
+    return dict(init=K.term(lp.init_expr(acc)), step=K.term(lp.step_expr(acc)), producers=prods, idiom="for", body=tb, acc=acc, result=phi)
+
+
+def reduction_is_returned(red):
+    """(ok, detail): what the body hands back is the reduction's result itself – every Ok(..) payload of a routine, the returned
+    value of a closure – with nothing applied to it afterwards"""
+    tb = red["body"]
+    want = red["result"]
+    if tb.is_closure or not any(True for _ in success_values(tb)):
+        got = [ds(tb.return_expr())]
+    else:
+        got = [ds(v) for _, v in success_values(tb)]
+    bad = [g for g in got if g != want]
+    if bad:
+        return False, "the value handed back is `%s`, not the reduction's result" % fmt(bad[0])[:100]
+    return True, "the reduction's result is handed back unchanged"
 
 
 def array_sum_leaf(prog, names):
@@ -681,6 +750,8 @@ def rule_c06(ctx, prog, rule="R19"):
         p_ok = len(prods) == 2 and prods[0][1][:2] == ("param", 1) and prods[1][1][:2] == ("param", 2)
         ctx.ob(rule, "weighted_sum/producers", p_ok, w, "pairs self with weights element by element (logical order)" if p_ok else
                "the reduction does not pair (self, weights): %s" % [fmt(p[1]) for p in prods], what="data not paired with weights by logical index")
+        rr = reduction_is_returned(ws_red)
+        ctx.ob(rule, "weighted_sum/returns-the-sum", rr[0], w, rr[1], what="weighted_sum returns something else than Σ d·w")
         inc = inc_of(ws_red["step"])
         if inc is None:
             ctx.ob(rule, "weighted_sum/accumulates", False, w, "step is `%s`, not ACC + term" % show(ws_red["step"]), what="not a plain sum")
@@ -704,8 +775,10 @@ def rule_c06(ctx, prog, rule="R19"):
                     lane_ok = prods[0][0].key == cb.key and prods[0][1][:2] == ("param", 2)
                     w_ok = prods[1][0].key == wsa.key and prods[1][1][:2] == ("param", 3)
                     same = ws_red is not None and canon_op(red["step"]) == canon_op(ws_red["step"]) and red["init"] == ws_red["init"]
-                    ok = lane_ok and w_ok and same
+                    rr = reduction_is_returned(red)
+                    ok = lane_ok and w_ok and same and rr[0]
                     detail = ("each lane is reduced with the kernel of weighted_sum (operation-identical), paired with the caller's weights" if ok else
+                              rr[1] if not rr[0] else
                               "lane kernel: lane producer ok=%s, weights producer ok=%s, step `%s` vs weighted_sum's `%s`"
                               % (lane_ok, w_ok, show(red["step"]), show(ws_red["step"]) if ws_red else "?"))
         ctx.ob("R13", "weighted_sum_axis/kernel-eq", ok, wsa.where(), detail, what="per-axis weighted sum is not the whole-array kernel per lane")
@@ -1507,6 +1580,59 @@ def canon_expr(prog, body, e, depth=0):
     return e
 
 
+def rule_moment_results(ctx, prog, cm=None, cms=None, bb1=None, rule="R13"):
+    """what central_moment / central_moments hand back is what the pipeline computed, with nothing applied afterwards"""
+    if cm is None:
+        from .facts import inline_calls
+        S = lambda n: prog.method("SummaryStatisticsExt", n)
+        keep = ("moments", "central_moment_coefficients", "horner_method")
+        filt = lambda cb: cb.key not in prog.exported and len(cb.blocks) <= 60 and cb.name not in keep and not cb.raw.get("unsafe_fn")
+        cm, cms = inline_calls(prog, S("central_moment"), filt), inline_calls(prog, S("central_moments"), filt)
+        sites = [bb for bb, t in cm.calls() if callee_name(t) == "horner_method"]
+        if len(sites) != 1:
+            ctx.ob(rule, "central_moment/returns-horner", False, cm.where(), "anchor not recognised: %d horner_method sites" % len(sites),
+                   what="anchor not recognised")
+            return
+        bb1 = sites[0]
+    # what the single routine hands back in the general case is the polynomial's value itself (nothing applied afterwards)
+    tb1 = prog.tracked(cm)
+    want = ds(tb1.call_expr(bb1))
+    others = [ds(v) for _, v in success_values(tb1)]
+    others = [v for v in others if not (isinstance(v, tuple) and v[0] == "call" and v[1] in ("one", "zero") and not v[3])]
+    okh = bool(others) and all(v == want for v in others)
+    ctx.ob(rule, "central_moment/returns-horner", okh, cm.where(bb1, "term"),
+           "for order ≥ 2 the success value is horner_method(coefficients, correction) unchanged" if okh else
+           "for order ≥ 2 the success value is `%s`, not the value of the polynomial" % (fmt(others[0])[:100] if others else "missing"),
+           what="central moment post-processed after the polynomial evaluation")
+    # the bulk routine's vector is only ever mutated by the pushes of the k-loop (no reverse/sort/truncate/in-place edit afterwards)
+    tb2 = prog.tracked(cms)
+    muts = []
+    vec_locals = set()
+    for d, v in success_values(tb2):
+        if isinstance(d[1], int):
+            st_ = tb2.blocks[d[0]]["stmts"][d[1]]
+            if st_["rv"]["k"] == "agg" and st_["rv"].get("variant") == "Ok":
+                op = st_["rv"]["fields"][0]
+                if op["k"] in ("move", "copy") and not op["pl"]["p"]:
+                    vec_locals.add(op["pl"]["l"])
+    for V in list(vec_locals):
+        # follow plain moves back to the named vector
+        for dd in tb2.defs_of(V):
+            if dd[0] != "entry" and isinstance(dd[1], int):
+                st_ = tb2.blocks[dd[0]]["stmts"][dd[1]]
+                if st_["rv"]["k"] == "use" and st_["rv"]["a"]["k"] in ("move", "copy") and not st_["rv"]["a"]["pl"]["p"]:
+                    vec_locals.add(st_["rv"]["a"]["pl"]["l"])
+    for V in vec_locals:
+        for dd in tb2.defs_of(V):
+            if dd[0] != "entry" and isinstance(dd[1], tuple) and dd[1][0] == "mut":
+                muts.append((dd[0], callee_name(tb2.term(dd[0]))))
+    bad = [m for m in muts if m[1] != "push"]
+    ctx.ob(rule, "central_moments/vector-only-pushed", not bad and bool(muts), cms.where(),
+           "the returned vector is mutated by the k-loop's push only (%d site(s))" % len(muts) if (not bad and muts) else
+           ("the returned vector is also mutated by `%s` at %s" % (bad[0][1], tb2.where(bad[0][0], "term")) if bad else "no push into the returned vector found"),
+           what="bulk moments edited after they were computed")
+
+
 def rule_c18_moments(ctx, prog, rule="R13"):
     S = lambda n: prog.method("SummaryStatisticsExt", n)
     cm, cms = S("central_moment"), S("central_moments")
@@ -1530,6 +1656,7 @@ def rule_c18_moments(ctx, prog, rule="R13"):
                what="anchor not recognised")
         return
     (bb1, a1), (bb2, a2) = h1[0], h2[0]
+    rule_moment_results(ctx, prog, cm, cms, bb1, rule)
     c1 = canon_expr(prog, cm, a1[0])
     c2 = canon_expr(prog, cms, a2[0])
     corr1 = canon_expr(prog, cm, a1[1])
@@ -2294,6 +2421,9 @@ def rule_c01_interpolation(ctx, prog, rule="R19"):
             detail = "*result_j = I::interpolate(index_map[lower_index(q_j, axis_len)], index_map[higher_index(q_j, axis_len)], q_j, axis_len)" if ok else \
                 "q is the zipped element=%s axis_len=len_of(data, axis)=%s stored into the paired result=%s lookups=%s" % (q_is_elem, len_ok, st_ok, lk)
     ctx.ob("R13", "quantiles_axis_mut/applies-strategy-to-neighbours", ok, inner.where(), detail, what="bulk quantile does not apply the strategy to the looked-up neighbours")
+    from .rules_result import rule_filled_array_returned
+    rule_filled_array_returned(ctx, prog.tracked(inner), "quantiles_axis_mut/result-returned-unchanged", rule="R30",
+                               what="bulk quantile result altered after the lanes were filled")
     # result shape: raw_dim(data) with [axis.index()] := qs.len()
     tb = prog.tracked(inner)
     ok = False
